@@ -27,6 +27,41 @@ def r_conv(ctx):
                        "integer path): repeated division by R, digit inserted at the front, left pad with 0 / ALPHA[0] to "
                        "the requested width, type dispatch ends in ValueError")
     OP = 'dsw.operation.'
+    # exactness at any length: no floating point and no native-int <-> str round trip inside the converters
+    FLOAT_FUNCS = ('math.log', 'math.log2', 'math.log10', 'math.sqrt', 'math.pow', 'math.floor', 'math.ceil', 'numpy.log',
+                   'numpy.log2', 'numpy.log10', 'numpy.sqrt', 'numpy.power', 'numpy.floor', 'numpy.ceil', 'builtins.float',
+                   'builtins.round', 'builtins.pow')
+    for name in ('bit_to_number', 'dna_to_number', 'number_to_bit', 'number_to_dna'):
+        f = ctx.p.func(OP + name)
+        bad = []
+        seen = set()
+        for nd, s in ctx.all_subterms(f):
+            if s in seen:
+                continue
+            seen.add(s)
+            if s[0] == 'bin' and s[1] == '/':
+                bad.append((nd.lineno, 'true division %s' % show(s)[:50]))
+            if s[0] == 'call' and call_name(s) in FLOAT_FUNCS:
+                bad.append((nd.lineno, 'floating-point call %s' % show(s)[:50]))
+            if s[0] == 'c' and isinstance(s[1], float):
+                bad.append((nd.lineno, 'float constant %r' % (s[1],)))
+        run.check(not bad, 'R-CONV', f, 'no-floating-point', bad[0][0] if bad else f.node.lineno,
+                  'integer / decimal-string arithmetic only',
+                  "%s uses floating point (%s): a 53-bit mantissa rounds for numbers beyond 2^53, so the conversion is not exact "
+                  "at every length" % (name, '; '.join(b[1] for b in bad[:2])), inputs='numbers just below a power of the radix, >= 2^53')
+        if name in ('bit_to_number', 'dna_to_number'):
+            # string-typed result must come from the decimal-string helpers, not from str(<native int>)
+            strs = []
+            for nd in f.stmts(ast.Return):
+                t = f.term(nd.stmt.value, nd)
+                for x in walk_term(t):
+                    if is_call(x, 'builtins.str', 'builtins.repr') and x[2] and x[2][0][0] == 'v':
+                        strs.append((nd.lineno, show(x)[:40]))
+            run.check(not strs, 'R-CONV', f, 'string-path-uses-decimal-helpers', strs[0][0] if strs else f.node.lineno,
+                      'no str(<integer accumulator>) in a returned value',
+                      "%s returns %s: str() of a native integer is limited to 4300 digits by CPython (>= 3.11), so the "
+                      "string-typed path raises ValueError for long inputs and no longer matches the integer path"
+                      % (name, strs[0][1] if strs else ''), inputs='sequences longer than about 7000 nucleotides / 14000 bits')
     for name, radix, seqparam in (('bit_to_number', 2, 'bit_array'), ('dna_to_number', 4, 'dna_sequence')):
         f = ctx.p.func(OP + name)
         loops = [nd for nd in f.nodes if nd.kind == 'for']
